@@ -400,6 +400,7 @@ def route_case(ctx, case):
         recorded = conn.exception
         recorded_info = conn.exc_info
         links_closed = [l.closed_by_client() for l in world.links]
+        exits_first = len(exits)
         # X5: the same object can connect again
         x5 = None
         if state == 'done':
@@ -411,6 +412,7 @@ def route_case(ctx, case):
                       srvs[-1].replies if srvs else None)
             except Exception as e:
                 x5 = ('raised', repr(e))
+        exits_x5 = len(exits) - exits_first
         # a second fault on the same object must be recorded afresh
         first_final_calls = list(final_calls)   # snapshot, first fault
         hook_calls = list(world.excepthook_calls)
@@ -568,6 +570,17 @@ def route_case(ctx, case):
     elif raised_out:
         ctx.fail('route', 'X4-reraised', case,
                  [repr(c.exc_value) for c in raised_out], 'nothing')
+    # the exit callback belongs to sessions that end without an error: the
+    # faulted one has none (unless the callback itself was the fault), a
+    # session a handler started and the server then ended cleanly has one,
+    # and so has the session connected afterwards
+    want_first = (1 if origin == 'exit_callback' else 0) + \
+        (1 if did_reconnect and len(links_closed) >= 2 else 0)
+    if origin != 'reaction_status_json' and (
+            exits_first != want_first or
+            (x5 and x5[0] == 'done' and exits_x5 != 1)):
+        ctx.fail('route', 'X5-exit-callback-of-clean-sessions', case,
+                 (exits_first, exits_x5), (want_first, 1))
     # X5
     if x5 is None or x5[0] != 'done' or x5[1] != 1 or \
             x5[2] != [('keep_alive', 12)]:
